@@ -808,6 +808,17 @@ def run(ctx):
         model0 = common.run_lines(judge, [" ".join(map(str, model_cmd(s, 0))) for _, s in sessions])
         model1 = common.run_lines(judge, [" ".join(map(str, model_cmd(s, 1))) for _, s in sessions])
 
+    # request order on a large document (handlers take tens of milliseconds there)
+    big_bad = []
+    for k in range(6 if thorough else 2):
+        sd = ctx.seed * 131 + k
+        bad = big_document_order(exe, 12, sd)
+        if bad and all(big_document_order(exe, 12, sd) for _ in range(2)):
+            big_bad.append((sd, bad))
+    for sd, bad in big_bad[:1]:
+        ctx.violation(dict(kind="big-document-order", property="C20", requests=12, seed=sd, **bad))
+    ctx.cov["big_document_order_sessions"] = 6 if thorough else 2
+
     ref = Reference(exe)
     results = []
     t_run = time.time()
@@ -962,8 +973,41 @@ def run(ctx):
             ctx.violation(dict(kind="proof", property="C20", detail="coqchk failed or reports axioms", out=ctx.cov.get("coqchk")), no_input=True)
 
 
+def big_document_order(exe, nreq, seed):
+    """request order under load on a document whose handlers take tens of milliseconds (250 procedures, ~30 kB): didOpen, then
+    `nreq` pipelined requests of all kinds (formatting among them) written in one piece, then shutdown / exit.  Returns None or
+    a description: responses must carry the ids in request order, each exactly once."""
+    import random
+    from props import c18
+    rng = random.Random(seed)
+    kinds = [k for k in c18.REQUEST_KINDS]
+    body = [rng.choice(kinds) for _ in range(nreq)]
+    for _ in range(3):
+        body.insert(rng.randrange(len(body)), "format")
+    sess = ["initialize", "initialized", "bigdoc"] + body + ["shutdown", "exit"]
+    data = b"".join(c18.frames(sess))
+    s = lspclient.Server(exe)
+    try:
+        s.send_raw(data)
+        msgs, eof = s.drain(120.0)
+        code = s.wait(10.0)
+    finally:
+        s.kill()
+    ids = [m.get("id") for m in msgs if isinstance(m, dict) and "id" in m and "method" not in m]
+    want = [pos for pos, sym in enumerate(sess, 1) if c18.SYMS[sym][0]]
+    if ids != want:
+        return dict(session=sess, response_ids=ids, request_ids=want, exit_code=code,
+                    what="responses do not come back in request order / not exactly one per request on a large document")
+    return None
+
+
 def replay(ctx, path):
     r = json.load(open(path))
+    if r.get("kind") == "big-document-order":
+        exe, _ = common.build_server()
+        bad = big_document_order(exe, r["requests"], r["seed"])
+        print(bad or "responses in request order")
+        return 1 if bad else 0
     sess = r.get("session") or r.get("original_session") or (r if "msgs" in r else None)      # replay file or corpus file
     if not sess:
         print(json.dumps(r, indent=1)[:4000])
